@@ -153,12 +153,17 @@ func (m MethodScope) populateImports(t types.Type, imports map[string]*Package) 
 
 // resolveImportVarConflicts ensures that all the newly added imports do not
 // conflict with any of the existing vars.
-func (m MethodScope) resolveImportVarConflicts(imports map[string]*Package) {
+func (m *MethodScope) resolveImportVarConflicts(imports map[string]*Package) {
 	// Ensure that all the newly added imports do not conflict with any of the
 	// existing vars.
 	for _, imprt := range imports {
 		if v, ok := m.searchVar(imprt.Qualifier()); ok {
-			v.Name += "MoqParam"
+			// The suffixed name may itself be taken by another variable.
+			name := v.Name + "MoqParam"
+			if _, taken := m.searchVar(name); taken || m.conflicted[name] {
+				name = m.resolveVarNameConflict(name)
+			}
+			v.Name = name
 		}
 	}
 }
